@@ -884,7 +884,7 @@ fn enumerate(args: &Args) -> Vec<HCase> {
         }
         "C12" => {
             let aliases = ["QWT256", "QWT512", "QWT256Pfs", "QWT512Pfs", "HQWT256", "HQWT512", "HQWT256Pfs", "HQWT512Pfs", "WT", "HWT"];
-            for g in tiny_all(3, 4) {
+            for g in tiny_all(3, if th { 5 } else { 4 }) {
                 for (j, al) in aliases.iter().enumerate() {
                     let huff = al.starts_with('H');
                     // element type rotates with alias and case
@@ -894,7 +894,7 @@ fn enumerate(args: &Args) -> Vec<HCase> {
             }
             // longer sequences: all histories are too many, n+3 steps from either end are covered by the
             // short ones; here the plain forward / backward / alternating histories
-            for g in tinybits_all(if th { 7 } else { 5 }) {
+            for g in tinybits_all(if th { 9 } else { 7 }) {
                 v.push(HCase::IterBits { gen: g, extra: 4 });
             }
             for n in [63usize, 64, 65, 511, 512, 513, 1025] {
